@@ -236,6 +236,39 @@ theorem dynTerm_halves {α : Type} (w : Weight) (r : α → List ℚ) (xs ys : L
   rw [e, div_eq_mul_inv, mul_inv]
   ring
 
+/-! ### means over blocks (used by C04 and C05) -/
+
+theorem sum_flatMap {α : Type} (ts : List α) (g : α → List ℚ) :
+    (ts.flatMap g).sum = (ts.map fun t => (g t).sum).sum := by
+  induction ts with
+  | nil => simp
+  | cons t ts ih => simp [List.flatMap_cons, List.sum_append, ih]
+
+theorem length_flatMap_const {α : Type} (ts : List α) (g : α → List ℚ) (n : Nat)
+    (h : ∀ t, (g t).length = n) : (ts.flatMap g).length = ts.length * n := by
+  induction ts with
+  | nil => simp
+  | cons t ts ih => simp [List.flatMap_cons, ih, h, Nat.add_mul, Nat.add_comm]
+
+/-- the mean over blocks of equal length is the mean of the block means -/
+theorem mean_flatMap_const {α : Type} (ts : List α) (g : α → List ℚ) (n : Nat)
+    (h : ∀ t, (g t).length = n) :
+    mean (ts.flatMap g) = mean (ts.map fun t => mean (g t)) := by
+  unfold mean
+  rw [sum_flatMap, length_flatMap_const ts g n h]
+  simp only [List.length_map, h, Nat.cast_mul]
+  have : (ts.map fun t => (g t).sum / (n : ℚ)) = ts.map fun t => (n : ℚ)⁻¹ * (g t).sum := by
+    apply List.map_congr_left; intro t _; rw [div_eq_inv_mul]
+  rw [this, List.sum_map_mul_left, div_eq_mul_inv, div_eq_mul_inv, mul_inv]
+  ring
+
+theorem mean_map_const {α : Type} (l : List α) (c : ℚ) (hl : l ≠ []) : mean (l.map fun _ => c) = c := by
+  have hn : (l.length : ℚ) ≠ 0 := by
+    have : l.length ≠ 0 := by simpa using hl
+    exact_mod_cast this
+  simp only [mean, List.map_const', List.sum_replicate, List.length_replicate, nsmul_eq_mul]
+  field_simp
+
 /-! ### the predicate `Holds.C03` states the same closed form -/
 
 /-- a model weight as `Holds.C03` observes it -/
